@@ -225,6 +225,33 @@ func runC08(c *Ctx) {
 	}
 }
 
+// c08HugeBody: Content-Length stays the number of bytes written when that number needs nine and ten digits. Only HEAD
+// is issued (nothing is copied): the handler writes one shared 32 MiB buffer several times without sending the header itself.
+func c08HugeBody(c *Ctx) {
+	buf := make([]byte, 32<<20)
+	for _, sc := range []struct{ full, tail int }{{2, 32<<20 - 1}, {2, 32891136}, {3, 4}, {4, 0}, {64, 123}} {
+		total := sc.full*len(buf) + sc.tail
+		env := mon.NewEnv()
+		rt := env.NewRouter("huge")
+		h := env.NewHnd(mon.KRoute, "/huge")
+		h.Run = func(w http.ResponseWriter, _ *http.Request, _ *mon.Hnd) {
+			w.Header().Set("X-Huge", "1")
+			for i := 0; i < sc.full; i++ {
+				w.Write(buf)
+			}
+			w.Write(buf[:sc.tail])
+		}
+		rt.Handle("/huge", h, nil, "GET")
+		o := mon.Do(rt, mon.Req{Method: "HEAD", Path: "/huge"})
+		c.Eval()
+		c.Class("huge_body_content_length")
+		if got := o.Header.Get("Content-Length"); o.Panicked || got != strconv.Itoa(total) || len(o.Body) != 0 || o.Header.Get("X-Huge") != "1" {
+			c.Violate(fmt.Sprintf("HEAD Content-Length %q, the handler wrote %d body bytes without calling WriteHeader (panic=%v, body bytes delivered=%d)", got, total, o.Panic, len(o.Body)), nil)
+			return
+		}
+	}
+}
+
 func c08Directed() []Directed {
 	prog := func(id string, steps ...mon.Step) Directed {
 		return Directed{ID: id, Run: func(c *Ctx) { checkHeadProgram(c, &mon.Prog{Steps: steps}, 0) }}
@@ -239,6 +266,7 @@ func c08Directed() []Directed {
 		prog("header-between-writes", w(3), set("X-A", "1"), w(4)),
 		prog("status-after-write", w(3), st(404)),
 		prog("no-write", set("X-B", "2")),
+		{ID: "content-length-of-a-huge-body", Run: c08HugeBody},
 		directedHist("head-removed-with-get", "C08", noneIC, false, hOps(H("/x", "GET", "POST"), Rm("/x", "GET"))),
 		directedHist("head-cannot-be-removed-alone", "C08", noneIC, false, hOps(H("/x", "GET"), Rm("/x", "HEAD"))),
 		directedHist("options-cannot-be-removed", "C08", noneIC, false, hOps(H("/x", "GET", "PUT"), Rm("/x", "OPTIONS"), Rm("/x", "PUT"))),
